@@ -1,4 +1,5 @@
 """Seeded generators of JSON specs (networks, obstacles, planning problems).  Pure functions of the Rng."""
+import json
 import math
 
 LANELET_TYPES = ["URBAN", "HIGHWAY", "BUS_LANE", "CROSSWALK", "SIDEWALK", "INTERSECTION"]
@@ -179,6 +180,18 @@ def gen_network(rng, rows=None, cols=None, ids=None, curved=None, signs=True, li
                 la["stop"] = {"start": la["left"][-1], "end": la["right"][-1], "marking": rng.pick(["SOLID", "DASHED"]),
                               "signs": sorted(rng.subset(s, 0.6)) if (s and rng.chance(0.8)) else None,
                               "lights": sorted(rng.subset(t, 0.6)) if (t and rng.chance(0.8)) else None}
+    if stop_lines and len(lanelets) >= 2 and rng.chance(0.3):
+        # one physical stop line spanning two lanes: two lanelets carry EQUAL stop lines (distinct objects with the
+        # same content); the second lanelet references the signs / lights of the line as well
+        with_line = [la for la in lanelets if la.get("stop")]
+        if with_line:
+            a = rng.pick(with_line)
+            b = rng.pick([la for la in lanelets if la is not a])
+            b["stop"] = json.loads(json.dumps(a["stop"]))
+            for key in ("signs", "lights"):
+                for x in a["stop"].get(key) or []:
+                    if x not in b.setdefault(key, []):
+                        b[key].append(x)
     if intersections and len(lan_ids) >= 2:
         for _ in range(rng.randint(0, 2)):
             iid = ids.take()
